@@ -149,3 +149,13 @@ func (ft *funcTrans) xmlNameLocal(t Term) string {
 	}
 	return w.declConstRaw(w.fresh("xmlname"), "String")
 }
+
+// isXMLEncoderCall: a call that xmlEncoderCall models (so that callreq clauses can be evaluated first).
+func (ft *funcTrans) isXMLEncoderCall(com *ssa.CallCommon) bool {
+	callee := com.StaticCallee()
+	if callee == nil || !strings.HasPrefix(callee.String(), "(*encoding/xml.Encoder).Encode") {
+		return false
+	}
+	_, ok := ft.w.P.Spec.Ghosts["emitN"]
+	return ok
+}
